@@ -233,6 +233,17 @@ func (d *csDirector) deadline(tag *csTag) int64 {
 }
 
 func (d *csDirector) recipient(sender *rig.Account, tag *csTag) string {
+	addr := d.recipientOf(sender, tag)
+	if d.run.Rng.Intn(8) == 0 {
+		// the other valid spelling of the same account (all upper case)
+		tag.Recipient += "/upper-case"
+		d.run.Count("recipient-spelled-in-upper-case", 1)
+		return strings.ToUpper(addr)
+	}
+	return addr
+}
+
+func (d *csDirector) recipientOf(sender *rig.Account, tag *csTag) string {
 	rng := d.run.Rng
 	switch rng.Intn(8) {
 	case 0, 1, 2:
@@ -1036,7 +1047,7 @@ func (d *csDirector) checkSettlement(br *rig.BlockRecord, tx *rig.TxRecord, tag 
 	switch m := tx.Msgs[0].(type) {
 	case *cstypes.MsgSwapOrder:
 		checkDeadline(m.Deadline)
-		sender, rcpt := m.Input.Address, m.Output.Address
+		sender, rcpt := m.Input.Address, htCanonAddr(m.Output.Address)
 		inD, outD := m.Input.Coin.Denom, m.Output.Coin.Denom
 		std := pre.Std
 		double := inD != std && outD != std
@@ -1267,7 +1278,7 @@ func (d *csDirector) roleOf(diffLine string, tx *rig.TxRecord, pre, post *csSnap
 			return "pool"
 		}
 	}
-	if m, ok := tx.Msgs[0].(*cstypes.MsgSwapOrder); ok && m.Output.Address == addr {
+	if m, ok := tx.Msgs[0].(*cstypes.MsgSwapOrder); ok && htCanonAddr(m.Output.Address) == addr {
 		return "recipient"
 	}
 	if addr == authtypes.NewModuleAddress(cstypes.ModuleName).String() {
